@@ -313,6 +313,28 @@ def check_cases(ctx, rep, cases, label):
         if alt_status == case['status'] and alt_iters == list(case['iters']):
             continue
         history_twin(case, alt_status, alt_iters, impl_out[i], rep)
+    # the same call again (and again) on the state the previous call left — also after a call that raised: every 5th case
+    rp_cases, rp_impl = [], []
+    for i, case in enumerate(cases):
+        if i % 5 != 2:
+            continue
+        repeat = 2 + (i // 5) % 2
+        m = sc.build_instance(case)
+        kw = sc.opts_kwargs(case['opts'], case['tol'], case.get('argform', 'plain'))
+        tags = []
+        with warnings.catch_warnings():
+            warnings.simplefilter('ignore')
+            for _ in range(repeat):
+                try:
+                    r = m.solve_t(sc.t_arg(case), **kw)
+                    tags.append('ret:T' if r else 'ret:F')
+                except Exception as e:  # noqa: BLE001
+                    tags.append(sc.exc_name(e))
+        w = sc.world_str(m, case['nE']).split('|')
+        rp_impl.append(','.join(tags) + '|' + w[0] + '|' + w[1] + '|' + w[3] + '|')
+        rp_cases.append(dict(case, traced=[], on=False, repeat=repeat, reset=False))
+        rep.dist[f'{label}:repeat{repeat}:' + '>'.join(t.split(':')[0] for t in tags)] += 1
+        rep.case(('repeat', json.dumps(case, sort_keys=True)), nontrivial=bool(m.passes))
     # solve_period(label) must behave exactly like solve_t(position of label): every 4th case also goes through it
     sp_cases, sp_impl = [], []
     for i, case in enumerate(cases):
@@ -331,6 +353,10 @@ def check_cases(ctx, rep, cases, label):
         for case, a, b in zip(cases, outs, impl_out):
             if a != b:
                 rep.disagree('solve_t: model != impl', case, a, b)
+        outs = ctx.drive([sc.line('traced_solve_t', c) for c in rp_cases])
+        for case, a, b in zip(rp_cases, outs, rp_impl):
+            if a != b:
+                rep.disagree('repeated solve_t: model != impl', case, a, b)
         outs = ctx.drive([sc.line('solve_period', c) for c in sp_cases])
         for case, a, b in zip(sp_cases, outs, sp_impl):
             if a != b:
@@ -410,6 +436,9 @@ def oracle_natural(case, tag, final, calls, rec, rep):
 
 
 def replay(ctx, rep, case):
+    if 'repeat' in case:
+        check_cases(ctx, rep, [case] * 5, 'replay')      # position 2 of 5 goes through the repeat stream
+        return
     if 'twin_status' in case:
         s, m, tag = sc.run_impl_solve_t(case['case'])
         print('  impl :', s)
